@@ -133,12 +133,12 @@ pub fn generate(r: &mut Runner) {
         let (ps, ms) = crate::diff::params_for(&mut r.rng, name, if r.tier == Tier::Quick { 64 } else { 512 });
         let maxp = ps.iter().copied().max().unwrap_or(1);
         let hl = r.rng.range(0, if r.tier == Tier::Quick { 300 } else { 3000 });
-        let weird_p = if i % 2 == 0 { 0.03 } else { 0.0 };
+        let weird_p = if r.rng.chance(0.5) { 0.03 } else { 0.0 };
         let scale = *r.rng.pick(&[1.0, 100.0, 1e6]);
         let mut c = Case::new("C04", "reset-random", name, &ps, &ms);
         c.ops = history(r, name, hl, weird_p, scale);
         c.ops.push(Op::Mark);
-        let wp2 = if i % 4 == 0 { 0.1 } else { 0.0 };
+        let wp2 = if r.rng.chance(0.25) { 0.1 } else { 0.0 };
         let cl = maxp + 2 + r.rng.below(8);
         let cont = history(r, name, cl, wp2, scale);
         c.ops.extend(cont.into_iter().filter(|o| *o != Op::Reset));
